@@ -185,6 +185,7 @@ func probeCtx(p *c10probe, hctx, callerCtx context.Context, wantMD metadata.MD, 
 }
 
 func checkC10(e *core.Env) {
+	curEnv = e
 	e.SetRule("in-process calls of all four kinds with caller contexts carrying 0..12 random values under keys of many types plus gRPC's own keys (outgoing metadata, an enclosing server's incoming metadata / transport stream / peer when issued from inside an in-process, real-gRPC or httpgrpc handler, nesting depth <=3), with and without channel interceptors; probes run inside the handler: Value(k) for every key found by a reflective walk of the caller's context chain, metadata/peer/transport-stream/deadline accessors, ClientContext, and metadata mutation on both sides; distinct = (host, depth, kind, interceptors, deadline, value count)")
 	e.Assume("ClientContext is compared by the values/deadline it exposes, not by pointer identity (the channel may wrap the caller's context)")
 	passU := func(ctx context.Context, req interface{}, info *grpc.UnaryServerInfo, h grpc.UnaryHandler) (interface{}, error) {
@@ -194,7 +195,7 @@ func checkC10(e *core.Env) {
 		return h(srv, ss)
 	}
 	hosts := []string{"top", "inproc", "grpc-ref", "http"}
-	n := e.N(300, 2400)
+	n := e.N(800, 10000)
 	e.Cases("ctx", n, func(i int, r *rand.Rand) {
 		host := hosts[i%len(hosts)]
 		withInt := r.Intn(2) == 0
@@ -313,7 +314,7 @@ func checkC10(e *core.Env) {
 	})
 
 	// caller mutates its metadata map after the call has started
-	e.Cases("caller-mutation", e.N(60, 400), func(i int, r *rand.Rand) {
+	e.Cases("caller-mutation", e.N(150, 2000), func(i int, r *rand.Rand) {
 		inner := NewInproc(&Service{}, carrierOpt{})
 		defer inner.Close()
 		kind := Kind(r.Intn(4))
